@@ -15,6 +15,8 @@ TARGETS = [
 ]
 FIT_NAMES = {"fit", "partial_fit"}
 TRAIN_ATTRS = {"X_", "y_", "weights_", "sample_weight_"}
+STATISTICS = {"mean", "sum", "max", "min", "std", "var", "median", "nanmean", "nansum", "nanmax", "nanmin", "nanstd",
+              "average", "norm", "ptp", "prod", "amax", "amin", "percentile", "quantile"}
 WRAPPERS = {"astype", "inverse_transform", "insert", "ones_like", "zeros_like", "asarray", "array", "copy",
             "ravel", "reshape", "int64", "column_or_1d", "transform"}
 
@@ -54,12 +56,14 @@ class MaskFlow(MustAnalysis):
             sl = e.slice
             if isinstance(sl, ast.Name) and sl.id in self.mask_names:
                 inner = self.expr_state(e.value, tokens)
-                return "masked" if inner in ("raw", "masked") else "none"
+                return "stat" if inner == "stat" else ("masked" if inner in ("raw", "masked") else "none")
             if isinstance(sl, ast.Tuple) and sl.elts and isinstance(sl.elts[0], ast.Name) and sl.elts[0].id in self.mask_names:
                 inner = self.expr_state(e.value, tokens)
-                return "masked" if inner in ("raw", "masked") else "none"
+                return "stat" if inner == "stat" else ("masked" if inner in ("raw", "masked") else "none")
             return self.expr_state(e.value, tokens)
         if isinstance(e, ast.Name):
+            if f"s:{e.id}" in tokens:
+                return "stat"
             if f"m:{e.id}" in tokens:
                 return "masked"
             if f"d:{e.id}" in tokens:
@@ -67,10 +71,21 @@ class MaskFlow(MustAnalysis):
             return "none"
         if isinstance(e, ast.Call):
             n = c01.callname(e)
+            if (n or "").split(".")[-1] in STATISTICS:
+                # a statistic over ALL rows (labeled and unlabeled) of a per-sample array: masking the
+                # value it is combined with afterwards does not remove the influence of the unlabeled rows
+                operands = list(e.args[:1]) + ([e.func.value] if isinstance(e.func, ast.Attribute)
+                                               and not (isinstance(e.func.value, ast.Name) and e.func.value.id in ("np", "numpy")) else [])
+                sts = [self.expr_state(a, tokens) for a in operands]
+                if "raw" in sts or "stat" in sts:
+                    return "stat"
+                return "none"
             if n in WRAPPERS:
                 parts = [self.expr_state(a, tokens) for a in e.args]
                 if isinstance(e.func, ast.Attribute):
                     parts.append(self.expr_state(e.func.value, tokens))
+                if "stat" in parts:
+                    return "stat"
                 if "raw" in parts:
                     return "raw"
                 if "masked" in parts:
@@ -78,6 +93,8 @@ class MaskFlow(MustAnalysis):
             return "none"
         if isinstance(e, ast.IfExp):
             parts = {self.expr_state(e.body, tokens), self.expr_state(e.orelse, tokens)}
+            if "stat" in parts:
+                return "stat"
             if "raw" in parts:
                 return "raw"
             if "masked" in parts:
@@ -85,6 +102,8 @@ class MaskFlow(MustAnalysis):
             return "none"
         if isinstance(e, ast.BinOp):
             parts = {self.expr_state(e.left, tokens), self.expr_state(e.right, tokens)}
+            if "stat" in parts:
+                return "stat"
             if "raw" in parts:
                 return "raw"
             if "masked" in parts:
@@ -107,7 +126,10 @@ class MaskFlow(MustAnalysis):
                 tk = set(tokens)
                 tk.discard(f"m:{t0.id}")
                 tk.discard(f"d:{t0.id}")
-                if st == "masked":
+                tk.discard(f"s:{t0.id}")
+                if st == "stat":
+                    tk.add(f"s:{t0.id}")
+                elif st == "masked":
                     tk.add(f"m:{t0.id}")
                 elif st == "raw":
                     tk.add(f"d:{t0.id}")
@@ -136,6 +158,9 @@ class MaskFlow(MustAnalysis):
                 for a, s in states:
                     if s == "raw":
                         self._report(n, a, state, "estimator fit" if is_fit else "call mixing masked and unmasked arrays")
+                    elif s == "stat" and is_fit:
+                        self._report(n, a, state, "estimator fit receives a value scaled by a statistic over ALL rows "
+                                                  "(the weights / labels of unlabeled samples change the model)")
                 self.sinks += 1
 
     def _is_estimator_fit(self, n):
@@ -157,6 +182,8 @@ class MaskFlow(MustAnalysis):
                 self.sinks += 1
                 if s == "raw":
                     self._report(stmt, stmt.value, state, f"stored as training data self.{t.attr}")
+                elif s == "stat":
+                    self._report(stmt, stmt.value, state, f"training data self.{t.attr} is scaled by a statistic over ALL rows")
             elif isinstance(t, ast.Attribute) and isinstance(t.value, ast.Name) and t.value.id == "self":
                 # statistics kept on self (label counts, fallback mean/std):
                 # every read of a per-sample array inside has to be masked
@@ -171,6 +198,9 @@ class MaskFlow(MustAnalysis):
                 self.sinks += 1
                 if s == "raw":
                     self._report(stmt, stmt.value, state, "sample_weight handed to the estimator's fit")
+                elif s == "stat":
+                    self._report(stmt, stmt.value, state, "sample_weight handed to the estimator's fit is scaled by a "
+                                                          "statistic over ALL rows (unlabeled samples included)")
 
     def unmasked_reads(self, e, tokens):
         """Name nodes of raw (unmasked) per-sample arrays that are read in `e`
@@ -220,7 +250,58 @@ class MaskFlow(MustAnalysis):
         return super()._apply(stmt, states, pseudo)
 
 
+def check_label_dtype_kept(p, report, rule):
+    """In the base validators the label array keeps its dtype until the missing-label mask has been
+    computed: a numeric `dtype=` on a conversion of y turns the sentinel None into NaN (and a string
+    sentinel into an error), after which is_labeled(y, missing_label) sees no unlabeled sample."""
+    n = 0
+    for cname in ("SkactivemlClassifier", "SkactivemlRegressor"):
+        ci = p.get_class(cname)
+        f = ci.methods.get("_validate_data") if ci is not None else None
+        if f is None:
+            raise AnalysisError(f"{cname}._validate_data vanished")
+        ps = [a for a in f.params() if a != "self"]
+        yname = ps[1] if len(ps) > 1 else "y"
+        for c in ast.walk(f.node):
+            if isinstance(c, ast.Call) and c.args and isinstance(c.args[0], ast.Name) and c.args[0].id == yname:
+                dt = [k.value for k in c.keywords if k.arg == "dtype"]
+                n += 1
+                bad = bool(dt) and not (isinstance(dt[0], ast.Constant) and dt[0].value is None)
+                report.add(rule, f.qual, f"`{site_id(c, 60)}` keeps the dtype of the labels", f"{f.file}:{c.lineno}", not bad,
+                           detail="no dtype conversion" if not bad else
+                           f"dtype={ast.unparse(dt[0])}: the sentinel None becomes NaN before the missing-label mask is "
+                           f"computed, so every sample counts as labeled")
+            if isinstance(c, ast.Call) and isinstance(c.func, ast.Attribute) and c.func.attr == "astype" \
+                    and isinstance(c.func.value, ast.Name) and c.func.value.id == yname:
+                n += 1
+                report.add(rule, f.qual, f"`{site_id(c, 60)}` keeps the dtype of the labels", f"{f.file}:{c.lineno}", False,
+                           detail="astype on the raw label array changes the sentinel")
+            if isinstance(c, ast.Dict):
+                for k, v in zip(c.keys, c.values):
+                    if isinstance(k, ast.Constant) and k.value == "dtype" and any(
+                            isinstance(kk, ast.Constant) and kk.value == "ensure_all_finite" for kk in c.keys):
+                        n += 1
+                        okd = isinstance(v, ast.Constant) and v.value is None
+                        report.add(rule, f.qual, "default check dict of the labels has dtype None", f"{f.file}:{c.lineno}", okd,
+                                   detail="dtype None" if okd else f"dtype={ast.unparse(v)} converts the labels")
+    return n
+
+
 def run(p, report, tier):
+    report.rule("R12.6", "the base validators keep the dtype of the label array until the missing-label mask is computed "
+                "(no numeric dtype= on check_array / column_or_1d / asarray of y, no astype): a coerced sentinel "
+                "(None -> NaN) makes every unlabeled sample count as labeled", floor=6)
+    check_label_dtype_kept(p, report, "R12.6")
+    report.rule("R12.7", "the mask every fit restricts its training data with is right for every legal sentinel: "
+                "is_unlabeled answers by a NaN test exactly when the sentinel is NaN and by equality (after the cast to "
+                "the common dtype) otherwise (shared with C16 R16.2)", floor=3)
+    from ..common import Report
+    from . import c16 as _c16
+    sub = Report("C16")
+    _c16.run(p, sub, "quick")
+    for o in sub.obligations:
+        if o.rule == "R16.2":
+            report.add("R12.7", o.entity, o.construct, o.loc, o.ok, detail=o.detail)
     report.rule("R12.1", "in the fit functions of the supervised wrappers every per-sample array (X, y, sample_weight "
                 "from _validate_data, and what is derived from them) that reaches the wrapped estimator's fit / "
                 "partial_fit, is stored as training data, or is passed to a call together with a masked array, is "
